@@ -191,6 +191,11 @@ def Book.setCell (b : Book) (s row col : Nat) (v : Text) : Option Book :=
   if s < b.sheets.length then some { b with sheets := b.sheets.modify s (fun g => g.set row col v) }
   else none
 
+/-- `get_sheet_mut(&s)?.remove_cell((col,row))`: every binding of the key goes; `none` = no such sheet -/
+def Book.delCell (b : Book) (s row col : Nat) : Option Book :=
+  if s < b.sheets.length then some { b with sheets := b.sheets.modify s (fun g => g.filter (fun e => e.1 ≠ (row, col))) }
+  else none
+
 /-- `get_active_sheet()`: `get_sheet(active_tab).unwrap()` – `none` is the panic -/
 def Book.activeSheet (b : Book) : Option Grid := b.sheets[b.active]?
 
